@@ -150,6 +150,72 @@ pub fn run(cfg: &Cfg, col: &mut Collector) {
             ]));
         }
     }
+    // ---- the smallest programs that fail while emitting: the reference is exactly one word beyond
+    // its field, and nothing else is in the program
+    for form in 0..8usize {
+        let bits = match form {
+            6 => 11,
+            7 => 10,
+            _ => 9,
+        };
+        let half = 1i32 << (bits - 1);
+        for d in [half, -half - 1] {
+            let mut r2 = Rng::for_case(cfg.seed, "tight", (form as u64) * 2 + (d > 0) as u64);
+            let mut g = geometry_program(form, d, &mut r2);
+            // drop the optional prefix statements / origin: keep it minimal
+            g.items.retain(|i| !matches!(i, Item::Orig(_)));
+            while matches!(g.items.first(), Some(Item::Stmt { stmt: Stmt::AddR(0, 0, 0), label: None })) {
+                g.items.remove(0);
+            }
+            // padding as one directive
+            let pad_words: usize = g.items.iter().map(|i| match i { Item::Stmt { stmt, label: None } if !stmt.pcrel_bits().is_some() && !matches!(stmt, Stmt::Alias(_)) => stmt.words(), _ => 0 }).sum();
+            let mut items: Vec<Item> = Vec::new();
+            let mut padded = false;
+            for it in g.items {
+                match &it {
+                    Item::Stmt { stmt, label: None } if !stmt.pcrel_bits().is_some() && !matches!(stmt, Stmt::Alias(_)) => {
+                        if !padded {
+                            items.push(Item::Stmt { label: None, stmt: Stmt::Blkw(pad_words as i32) });
+                            padded = true;
+                        }
+                    }
+                    _ => items.push(it),
+                }
+            }
+            let p = Program { items };
+            let Verdict::Reject(why) = encode(&p) else { continue };
+            let total: usize = p.items.iter().map(|i| match i { Item::Stmt { stmt, .. } => stmt.words(), _ => 0 }).sum();
+            let text = render(&p, &Layout::canonical(), &mut r2).text;
+            emit_fail.push(J::obj(vec![
+                ("source", J::s(&text)),
+                ("stack", J::B(form == 7)),
+                ("statements", J::I(total as i64)),
+                ("fail_position", J::I(if d > 0 { 0 } else { total as i64 - 1 })),
+                ("failing_word_index", J::I(if d > 0 { 0 } else { total as i64 - 1 })),
+                ("reason", J::s(&why)),
+                ("form", J::s(format!("{}_tight", ["BR", "LD", "LDI", "LEA", "ST", "STI", "JSR", "CALL"][form]))),
+            ]));
+        }
+    }
+    // ---- valid programs whose image ends at / just beyond the top of memory (the assembler does
+    // not care where an image ends; the loader does)
+    let mut top = Vec::new();
+    for (orig, n) in [(0xFFFEu32, 1usize), (0xFFFE, 2), (0xFFFE, 3), (0xFFFD, 2), (0xFFFF, 1), (0xFFFF, 3), (0xFFF0, 15), (0xFFF0, 16), (0xFFF0, 17), (0xFE00, 2)] {
+        let mut items = vec![Item::Orig(orig as i32)];
+        for k in 0..n {
+            items.push(Item::Stmt { label: None, stmt: if k + 1 == n { Stmt::Alias(0x25) } else { Stmt::AddI((k % 8) as u8, 0, (k % 16) as i32) } });
+        }
+        let p = Program { items };
+        let Verdict::Accept(img) = encode(&p) else { continue };
+        let text = render(&p, &Layout::canonical(), &mut rng).text;
+        top.push(J::obj(vec![
+            ("source", J::s(&text)),
+            ("stack", J::B(false)),
+            ("image", J::A(img.raw().iter().map(|w| J::I(*w as i64)).collect())),
+            ("end", J::I((orig as usize + n) as i64)),
+        ]));
+    }
+    col.extra.push(("top_of_memory".into(), J::A(top)));
     // ---- programs accepted / rejected for operand reasons (C07 agreement, C18 gate)
     let mut mixed = Vec::new();
     for _ in 0..cfg.n(80, 1500, 4) {
